@@ -489,6 +489,104 @@ def task_unique(scns):
     return {'viol': [v.to_json() for vs in byfp.values() for v in vs[:2]], 'n': n, 'hits': hits}
 
 
+# ---- fan-out: a recipient the bus has to skip does not end the delivery to the others ------------------------------
+
+FANOUT_POLICY = """
+  <policy context="default">
+    <allow send_destination="*" eavesdrop="true"/>
+    <allow eavesdrop="true"/>
+    <allow own="*"/>
+    <allow user="*"/>
+  </policy>
+  <policy user="65534">
+    <deny receive_interface="f.denied"/>
+  </policy>
+"""
+FANOUT_RULES = [b"type='signal'", b"type='signal',interface='f.plain'", b"path='/f'", b"interface='f.denied'", b"member='Fan',path_namespace='/f'"]
+
+
+class FanoutSession(BusSession):
+    """S broadcasts; R1 never negotiated descriptor passing, R2 (another user) is refused interface f.denied by its receive
+    policy, R3 is an ordinary client.  All hold matching rules, added in a given order (the bus walks its rule pools in
+    insertion order)."""
+
+    def __init__(self, params=None):
+        BusSession.__init__(self, params or {})
+        self.bus.h.cmd('MKFD 1')
+        self.connect_slot('S')
+        self.connect_slot('R1', nofd=True)
+        self.connect_slot('R2', uid=65534)
+        self.connect_slot('R3')
+        for l in list(self.inbox):
+            self.take(l)
+
+    def config(self):
+        return B.make_config(policy=FANOUT_POLICY)
+
+
+def fanout_scenarios():
+    for order in itertools.permutations(('R1', 'R2', 'R3')):
+        for ri in range(len(FANOUT_RULES)):
+            for mixed in (0, 1):
+                yield {'part': 'fanout', 'order': list(order), 'rule': ri, 'mixed': mixed}
+
+
+def task_fanout(scns):
+    out, hits = [], {}
+    n = 0
+    for scn in scns:
+        try:
+            s = FanoutSession()
+            held = {}
+            for j, h in enumerate(scn['order']):
+                # mixed: the holders use different (all matching or not) rules, so that they sit in different rule pools
+                text = FANOUT_RULES[(scn['rule'] + (j if scn['mixed'] else 0)) % len(FANOUT_RULES)]
+                ser, rep = s.method(h, 'AddMatch', [R.S(text)])
+                if rep is None or rep.kind != R.MT_RETURN:
+                    out.append(Violation('rejected-but-valid', 'AddMatch', 'AddMatch(%r) refused' % text, scn))
+                held[h] = M.parse(text)[1]
+            for l in list(s.inbox):
+                s.take(l)
+            for iface, nfd in ((b'f.plain', 0), (b'f.plain', 1), (b'f.denied', 0), (b'f.denied', 1), (b'f.other', 1)):
+                c = s.slots['S']
+                ser = s.bus.next_serial(c)
+                fields = [(R.F_PATH, (b'o', b'/f')), (R.F_INTERFACE, (b's', iface)), (R.F_MEMBER, (b's', b'Fan'))]
+                body = [R.S(b'fan')]
+                if nfd:
+                    fields.append((R.F_UNIX_FDS, (b'u', 1)))
+                    body.append(R.H(0))
+                m = R.Msg(R.MT_SIGNAL, 0, ser, fields, body)
+                s.send_raw('S', R.encode_message(m), [0] if nfd else None)
+                view = M.MsgView(m.mtype, {s.uname['S']}, set(), m.interface, m.member, m.path, m.body, False)
+                for h in ('R1', 'R2', 'R3'):
+                    matches = M.matches(held[h], view)
+                    skipped = (h == 'R1' and nfd) or (h == 'R2' and iface == b'f.denied')
+                    got = sum(1 for o in s.take(h) if o.serial == ser and o.sender == s.uname['S'])
+                    n += 1
+                    if skipped:
+                        hits['fanout-skipped-recipient'] = hits.get('fanout-skipped-recipient', 0) + 1
+                        if got:
+                            out.append(Violation('delivered-without-match', 'fanout:skipped-recipient', '%s received a broadcast it cannot/may not receive (interface %r, %d descriptors)' % (h, iface, nfd), scn))
+                        continue
+                    want = 1 if matches else 0
+                    hits['fanout-deliver' if want else 'fanout-silent'] = hits.get('fanout-deliver' if want else 'fanout-silent', 0) + 1
+                    if got != want:
+                        out.append(Violation('not-delivered' if got < want else ('delivered-twice' if want else 'delivered-without-match'), 'fanout:' + ('after-skipped-recipient' if got < want else 'other'),
+                                             'rules added in order %r; broadcast on %r with %d descriptors: %s (rule %r) received %d copies, specification says %d' %
+                                             (scn['order'], iface, nfd, h, held[h].text, got, want), scn))
+                if s.eof.get('S'):
+                    out.append(Violation('sender-disconnected', 'fanout', 'the sender of a valid broadcast was disconnected', scn))
+                    break
+                s.take('S')
+        except HarnessDied as e:
+            out.append(crash_violation(e, scn))
+            worker_bus().h.close()
+    byfp = {}
+    for v in out:
+        byfp.setdefault(v.fingerprint, []).append(v)
+    return {'viol': [v.to_json() for vs in byfp.values() for v in vs[:2]], 'n': n, 'hits': hits}
+
+
 # ---- rule-set histories ------------------------------------------------------
 
 HIST_POOL = [b"path_namespace='/a'", b"path_namespace='/b'", b"arg0='x'", b"arg0='y'", b"member='M'", b"member='MM'",
@@ -573,8 +671,11 @@ def run(ctx):
         tasks.append((task_matcher, combos[i:i + 8]))
     uscn = list(unique_scenarios())
     tasks += [(task_unique, uscn[i:i + 6]) for i in range(0, len(uscn), 6)]
+    fscn = list(fanout_scenarios())
+    tasks += [(task_fanout, fscn[i:i + 5]) for i in range(0, len(fscn), 5)]
     pool = Pool()
     nparse = nprobe = nquote = nuniq = 0
+    nfan = 0
     done = 0
     try:
         for r in pool.imap(_dispatch, tasks):
@@ -590,6 +691,8 @@ def run(ctx):
                 nquote += r['n']
             elif any(k.startswith('unique-') for k in r['hits']):
                 nuniq += r['n']
+            elif any(k.startswith('fanout-') for k in r['hits']):
+                nfan += r['n']
             else:
                 nprobe += r['n']
             if ctx.expired():
@@ -603,7 +706,7 @@ def run(ctx):
     ctx.coverage.update({
         'states': st['states'] + len(combos), 'transitions': st['transitions'] + nparse + nprobe,
         'traces_validated_against_impl': st['transitions'] + nparse + nprobe,
-        'rule_strings': nparse, 'rule_x_message_probes': nprobe, 'quoting_rules': len(qrules), 'quoting_probes': nquote, 'unique_name_scenarios': len(uscn), 'unique_name_probes': nuniq, 'history_states': st['states'], 'history_transitions': st['transitions'],
+        'rule_strings': nparse, 'rule_x_message_probes': nprobe, 'quoting_rules': len(qrules), 'quoting_probes': nquote, 'unique_name_scenarios': len(uscn), 'unique_name_probes': nuniq, 'fanout_scenarios': len(fscn), 'fanout_probes': nfan, 'history_states': st['states'], 'history_transitions': st['transitions'],
         'history_depth': st['completed_depth'], 'history_fixpoint': st['fixpoint'],
         'bound': 'parser: all concatenations of <= %d of %d lexical pieces%s + %d templated/boundary rules; matcher: %d single rules and %d rule pairs x %d probe messages; '
                  'histories: 2 holders x %d-rule pool (pairs differing in one value), add/remove/disconnect/reconnect, BFS depth %d' %
@@ -624,6 +727,9 @@ def replay(case):
         return [Violation.from_json(v) for v in r['viol']]
     if case.get('part') == 'unique':
         r = task_unique([case])
+        return [Violation.from_json(v) for v in r['viol']]
+    if case.get('part') == 'fanout':
+        r = task_fanout([case])
         return [Violation.from_json(v) for v in r['viol']]
     if case.get('part') == 'quoting':
         r = task_quoting([bytes.fromhex(case['rule'])])
